@@ -126,7 +126,11 @@ class Shadow:
                 before = orig.cache_info().hits
                 v = orig(c1, c2, *a, **k)
                 sh._count("_convolve_two_children", orig, before, "conv2", [sh._id("arr", np.ascontiguousarray(c1).tobytes()), sh._id("arr", np.ascontiguousarray(c2).tobytes())])
-                v2 = raw(np.array(c1, copy=True), np.array(c2, copy=True), *a, **k)
+                try:
+                    v2 = raw(np.array(c1, copy=True), np.array(c2, copy=True), *a, **k)
+                except TypeError:
+                    # extra arguments that only the memo wrapper consumes (e.g. precomputed key material)
+                    v2 = raw(np.array(c1, copy=True), np.array(c2, copy=True))
                 sh._cmp_arr("_convolve_two_children", v, v2, {})
                 return v
             f.cache_info, f.cache_clear, f.__wrapped__ = orig.cache_info, orig.cache_clear, raw
@@ -476,6 +480,66 @@ def eviction_part(sh, seed, ntrees):
         tree.data_log_likelihood
 
 
+def warm_proposal_law(ck):
+    """A memoised proposal object is handed out again on a cache hit: the LAW of a draw from it must not depend on the
+    draws made from it before.  For parents with 3-4 top-level clones every outcome of two successive draws (the second
+    through a second, memoised, look-up) is enumerated; the conditional law of the second draw given the first must
+    equal the law of a draw from a cold object (which C08 binds to Proposal.tla)."""
+    from .c08 import kernel_cls, clear_caches, obj_key
+    from ..enumrng import EnumRNG, enumerate_paths
+    from phyclone.smc.swarm import Particle
+    from phyclone.smc.utils import RootPermutationDistribution
+    from phyclone.tree import FSCRPDistribution, TreeJointDistribution
+    data = absstate.make_data(5, kind="int", grid=4, seed=4 + ck.seed, outlier_prob=0.2)
+    td = TreeJointDistribution(FSCRPDistribution(1.3))
+    perm = RootPermutationDistribution()
+    nev = 0
+    for kname in ("semi", "full", "boot"):
+        for fam in ([[0], [1], [2]], [[0], [1], [2], [3]], [[0, 1], [1], [2], [3]]):
+            pkey = absstate.canon({"f": fam, "o": []})
+            d = len(absstate.data_ids(pkey))
+            rng = EnumRNG()
+
+            def go(ndraws):
+                clear_caches()
+                kern = kernel_cls(kname)(td, rng, outlier_proposal_prob=0.1, perm_dist=perm)
+                ppart = Particle(0, None, absstate.build(pkey, data), td, perm)
+                outs = []
+                for _ in range(ndraws):
+                    pd = kern.get_proposal_distribution(data[d], ppart)
+                    outs.append(obj_key(pd.sample()))
+                return tuple(outs)
+
+            try:
+                cold = {}
+                for res, p, _ in enumerate_paths(lambda: go(1), rng):
+                    cold[res[0]] = cold.get(res[0], 0.0) + p
+                joint, first = {}, {}
+                for res, p, _ in enumerate_paths(lambda: go(2), rng):
+                    joint[res] = joint.get(res, 0.0) + p
+                    first[res[0]] = first.get(res[0], 0.0) + p
+            except Exception as ex:  # noqa
+                import traceback
+                if not any("/phyclone/" in f.filename for f in traceback.extract_tb(ex.__traceback__)):
+                    raise
+                ck.violation("C14|warm_proposal|exception", "drawing twice from the memoised %s proposal of parent %s raised %s: %s" % (kname, absstate.key_str(pkey), type(ex).__name__, ex), {"kernel": kname, "parent": absstate.to_json(pkey)})
+                continue
+            nev += len(joint)
+            worst = None
+            for w, pw in first.items():
+                for x, px in cold.items():
+                    dev = abs(joint.get((w, x), 0.0) / pw - px)
+                    if dev > 1e-9 and (worst is None or dev > worst[0]):
+                        worst = (dev, w, x, joint.get((w, x), 0.0) / pw, px)
+            if worst:
+                ck.violation("C14|warm_proposal|law|%s" % kname, "the memoised %s proposal of parent %s + data point %d: after a first draw gave %s, a draw from the object handed out on the cache hit returns %s with probability %.6g; "
+                             "a cold object returns it with probability %.6g" % (kname, absstate.key_str(pkey), d, absstate.key_str(worst[1]), absstate.key_str(worst[2]), worst[3], worst[4]),
+                             {"kernel": kname, "parent": absstate.to_json(pkey), "d": d})
+            ck.nontrivial("warm_proposal:%s:%s" % (kname, absstate.key_str(pkey)))
+    ck.evaluations += nev
+    ck.extra["warm_proposal_joint_outcomes"] = nev
+
+
 def key_collisions(ck, n_arrays):
     """Different arguments must not share a memo key: the real key objects of the two convolution memo tables are
     built for n_arrays different likelihood grids (as many as a long run on a large input produces) and compared.  With
@@ -528,6 +592,7 @@ def run(corrupt=None):
     thorough = ck.tier == "thorough"
     model_runs(ck)
     key_collisions(ck, 400000 if thorough else 200000)
+    warm_proposal_law(ck)
     sh = Shadow(ck)
     sh.install()
     try:
